@@ -121,7 +121,7 @@ def reload_side(ctx):
 # C11
 
 def run_timeout(wk, scenario, timeout=2):
-    nworkers = 1 if scenario == "healthy2" else 2
+    nworkers = 1 if scenario in ("healthy2", "healthy_busy") else 2
     port2 = rp.free_port() if scenario == "healthy2" else None
     s = rp.Server(wk, workers=nworkers, threads=2 if wk == "gthread" else None,
                   args=["--timeout", str(timeout), "--graceful-timeout", "2"] +
@@ -164,10 +164,31 @@ def run_timeout(wk, scenario, timeout=2):
             alive = [p for p in initial if rp.proc_state(p) not in (None, "Z")]
             ev.append({"e": "healthy", "killed": len(initial) - len(alive)})
             ev.append({"e": "others", "ok": n - fails, "failed": fails})
-            tr = {"scenario": scenario, "wk": wk, "timeout_ms": timeout * 1000, "bound_ms": 0, "ev": ev}
+            tr = {"scenario": scenario, "wk": wk, "timeout_ms": timeout * 1000, "bound_ms": 0, "min_ms": 0, "ev": ev}
             return tr, {"wk": wk, "scenario": scenario, "requests": n, "failed": fails}
         # hang -> ABRT at most timeout + 1 s (master loop) later; ignored ABRT -> KILL one more loop (1 s) later
-        bound = timeout * 1000 + 1000 + (1000 if scenario == "ignore" else 0) + 1000 + slack
+        bound = timeout * 1000 + 1000 + (1000 if scenario.startswith("ignore") else 0) + 1000 + slack
+        if scenario == "healthy_busy":
+            # several clients keep the listen queue non-empty for longer than the timeout with short requests
+            stop_at = time.time() + timeout * 2.6
+            cnt = {"ok": 0, "fail": 0}
+
+            def loop():
+                while time.time() < stop_at:
+                    try:
+                        st, body, info = s.get("/sleep?t=0.04", timeout=timeout * 3)
+                        cnt["ok" if st == 200 else "fail"] += 1
+                    except OSError:
+                        cnt["fail"] += 1
+            ths = [threading.Thread(target=loop) for _ in range(6)]
+            [t.start() for t in ths]
+            [t.join() for t in ths]
+            time.sleep(0.5)
+            alive = [p for p in initial if rp.proc_state(p) not in (None, "Z")]
+            ev.append({"e": "healthy", "killed": len(initial) - len(alive)})
+            ev.append({"e": "others", "ok": cnt["ok"], "failed": cnt["fail"]})
+            tr = {"scenario": scenario, "wk": wk, "timeout_ms": timeout * 1000, "bound_ms": 0, "min_ms": 0, "ev": ev}
+            return tr, {"wk": wk, "scenario": scenario, "requests": cnt["ok"] + cnt["fail"], "failed": cnt["fail"]}
         if scenario == "healthy":
             # idle for a while, then busy with requests shorter than the timeout, back to back
             t_end = time.time() + timeout * 2.5
@@ -182,19 +203,33 @@ def run_timeout(wk, scenario, timeout=2):
             alive = [p for p in initial if rp.proc_state(p) not in (None, "Z")]
             ev.append({"e": "healthy", "killed": len(initial) - len(alive)})
             ev.append({"e": "others", "ok": n - fails, "failed": fails})
-            tr = {"scenario": scenario, "wk": wk, "timeout_ms": timeout * 1000, "bound_ms": bound, "ev": ev}
+            tr = {"scenario": scenario, "wk": wk, "timeout_ms": timeout * 1000, "bound_ms": bound, "min_ms": 0, "ev": ev}
             return tr, {"wk": wk, "scenario": scenario, "requests": n}
         # make one worker hang
         victim = None
-        if scenario == "stop":
+        if scenario.startswith("stop"):
             victim = initial[0]
             os.kill(victim, signal.SIGSTOP)
             t0 = time.time()
         else:
             c = s.connect(timeout=30)
-            c.sendall(("GET /hang%s HTTP/1.1\r\nHost: h\r\n\r\n" % ("?ignore=1" if scenario == "ignore" else "")).encode())
+            c.sendall(("GET /hang%s HTTP/1.1\r\nHost: h\r\n\r\n" % ("?ignore=1" if scenario.startswith("ignore") else "")).encode())
             t0 = time.time()
             time.sleep(0.3)
+        poke = None
+        if scenario.endswith("_busymaster"):
+            # the master is woken several times per second (USR1: reopen logs) while the worker hangs
+            poke_stop = threading.Event()
+
+            def poker():
+                while not poke_stop.is_set():
+                    try:
+                        s.signal(signal.SIGUSR1)
+                    except OSError:
+                        pass
+                    time.sleep(0.3)
+            poke = threading.Thread(target=poker, daemon=True)
+            poke.start()
         # the rest of the server keeps serving
         ok = failed = 0
         served_by = set()
@@ -224,16 +259,19 @@ def run_timeout(wk, scenario, timeout=2):
             victim = victim[0] if victim else initial[0]
             if rp.proc_state(victim) in (None, "Z"):
                 gone_ms = int((time.time() - t0) * 1000)
+        if poke:
+            poke_stop.set()
         time.sleep(1.5)
         alive = [p for p in s.workers() if rp.proc_state(p) not in (None, "Z")]
-        if wk in ("gevent", "eventlet", "gthread") and scenario != "stop":
+        if wk in ("gevent", "eventlet", "gthread") and not scenario.startswith("stop"):
             # a blocked request does not block a concurrent worker's main loop: the worker is NOT hung
             ev.append({"e": "healthy", "killed": 0 if gone_ms < 0 else 1})
         else:
             ev.append({"e": "gone", "after_ms": gone_ms})
             ev.append({"e": "pool", "nworkers": len(alive), "want": nworkers})
         ev.append({"e": "others", "ok": ok, "failed": failed if wk != "sync" or scenario == "stop" or True else 0})
-        tr = {"scenario": scenario, "wk": wk, "timeout_ms": timeout * 1000, "bound_ms": bound, "ev": ev}
+        tr = {"scenario": scenario, "wk": wk, "timeout_ms": timeout * 1000, "bound_ms": bound,
+              "min_ms": 0 if scenario.startswith("stop") else timeout * 1000 - 200, "ev": ev}
         return tr, {"wk": wk, "scenario": scenario, "gone_ms": gone_ms, "ok": ok, "failed": failed, "alive": len(alive)}
     finally:
         try:
@@ -248,10 +286,12 @@ def run_timeout(wk, scenario, timeout=2):
 
 
 def timeout_side(ctx):
-    plan = [("sync", "hang"), ("gthread", "stop"), ("sync", "healthy"), ("gevent", "healthy"), ("sync", "healthy2")] if ctx.quick else \
+    plan = [("sync", "hang"), ("gthread", "stop"), ("sync", "healthy"), ("gevent", "healthy"), ("sync", "healthy2"),
+            ("sync", "healthy_busy"), ("sync", "stop_busymaster")] if ctx.quick else \
         [(wk, sc) for wk in ("sync", "gthread", "gevent", "eventlet") for sc in ("hang", "stop", "ignore", "healthy")] + \
-        [("sync", "healthy2"), ("gthread", "healthy2")]
-    results = _parallel(plan, lambda a, i: run_timeout(a[0], a[1]), par=5)
+        [("sync", "healthy2"), ("gthread", "healthy2"), ("sync", "healthy_busy"), ("gthread", "healthy_busy"),
+         ("sync", "stop_busymaster"), ("gevent", "stop_busymaster"), ("sync", "hang_busymaster")]
+    results = _parallel(plan, lambda a, i: run_timeout(a[0], a[1]), par=7)
     traces = [r[0] for r in results]
     metas = [r[1] for r in results]
     verdicts, stats = tlc.validate_batch("TimeoutTrace", "TimeoutTrace.cfg", traces, name="TimeoutTrace_C11")
